@@ -368,7 +368,8 @@ impl Node {
                     })?;
                     let var_update_path_tree =
                         w.declare_var_on_top_scope_init(|w, var_update_path_tree| {
-                            write!(w, "C?!0:W[{}]", gen_lit_str(slot_value_name))?;
+                            // (`W` is absent when the parent turns out not to be a dynamic-slot component)
+                            write!(w, "C?!0:Z(W,{})", gen_lit_str(slot_value_name))?;
                             Ok(var_update_path_tree)
                         })?;
                     var_slot_map.insert(slot_value_name.clone(), (var_scope, var_update_path_tree));
